@@ -412,5 +412,5 @@ pub fn new_inner_unicode<const LEAD: u8, const TAIL: u8, const CASE: u8, const N
         }
         Utf32String::Ascii(_) => assert!(false, "text with non-ASCII characters is stored in code-point form"),
     }
-    kani::cover!(!ESC || n < L);
+    kani::cover!(TAIL != 0 || !ESC || n < L);
 }
